@@ -34,6 +34,10 @@ type Router struct {
 	// can be opened at the same time on both endpoints, there can be more
 	// than one connection per ServerIdentityID.
 	connections map[ServerIdentityID][]Conn
+	// negotiating holds the accepted connections whose callback has not yet
+	// returned, in particular those still waiting for the identity of the
+	// remote party. Stop() closes them and waits for their callbacks.
+	negotiating map[Conn]struct{}
 	sync.Mutex
 
 	// boolean flag indicating that the router is already clos{ing,ed}.
@@ -174,6 +178,7 @@ func NewRouter(own *ServerIdentity, h Host) *Router {
 	r := &Router{
 		ServerIdentity:          own,
 		connections:             make(map[ServerIdentityID][]Conn),
+		negotiating:             make(map[Conn]struct{}),
 		host:                    h,
 		Dispatcher:              NewBlockingDispatcher(),
 		connectionErrorHandlers: make([]func(*ServerIdentity), 0),
@@ -214,17 +219,21 @@ func (r *Router) Start() {
 	// and will create a new handling routine.
 	err := r.host.Listen(func(c Conn) {
 		verifAt("router.accepted", r, c)
+		if !r.beginNegotiation(c) {
+			log.Lvl3(r.address, "does not accept incoming connection from", c.Remote(), "because it's closed")
+			closeRefused(c)
+			return
+		}
+		defer r.endNegotiation(c)
 		dst, err := r.receiveServerIdentity(c)
 		if err != nil {
-			if !strings.Contains(err.Error(), "EOF") {
+			if !strings.Contains(err.Error(), "EOF") && !r.Closed() {
 				// Avoid printing error message if it's just a stray connection.
 				log.Errorf("receiving server identity from %#v failed: %+v",
 					c.Remote().NetworkAddress(), err)
 			}
-			if err := c.Close(); err != nil {
-				log.Error("Couldn't close secure connection:",
-					err)
-			}
+			// Stop() may have closed it already to end the negotiation.
+			closeRefused(c)
 			return
 		}
 
@@ -278,6 +287,13 @@ func (r *Router) Stop() error {
 			if err := c.Close(); err != nil {
 				log.Lvl5(err)
 			}
+		}
+	}
+	// and the accepted connections still waiting for the remote identity:
+	// their callbacks then return, and wg.Wait() below waits for them.
+	for c := range r.negotiating {
+		if err := c.Close(); err != nil {
+			log.Lvl5(err)
 		}
 	}
 	// wait for all handleConn to finish
@@ -397,6 +413,29 @@ func (r *Router) connect(si *ServerIdentity) (Conn, uint64, error) {
 	}
 	return c, sentLen, nil
 
+}
+
+// beginNegotiation records an accepted connection until its callback returns.
+// It returns false if the router is closed (or closing): the connection must
+// then be refused.
+func (r *Router) beginNegotiation(c Conn) bool {
+	r.Lock()
+	defer r.Unlock()
+	if r.isClosed {
+		return false
+	}
+	r.wg.Add(1)
+	r.negotiating[c] = struct{}{}
+	return true
+}
+
+// endNegotiation is called when the callback of an accepted connection
+// returns: the connection is by then either registered or closed.
+func (r *Router) endNegotiation(c Conn) {
+	r.Lock()
+	delete(r.negotiating, c)
+	r.Unlock()
+	r.wg.Done()
 }
 
 // closeRefused closes a freshly opened or accepted connection whose set-up
